@@ -36,13 +36,21 @@ def one(root, sid):
     else:
         junit = f"/tmp/seed_confirm_{sid}.xml"
         cmd = BASE["cmd"].replace("cd /repo", f"cd {wt}").replace("<file>", junit)
-        env = dict(os.environ, PYTHONPATH=wt, RAY_DISABLE_IMPORT_WARNING="1")
+        # the interpreter of the pinned command must also be the one pyspark starts its workers with
+        env = dict(os.environ, PYTHONPATH=wt, RAY_DISABLE_IMPORT_WARNING="1", PYSPARK_PYTHON="/venv/bin/python",
+                   PYSPARK_DRIVER_PYTHON="/venv/bin/python", PATH="/venv/bin:" + os.environ.get("PATH", ""))
         sh(cmd, env=env, timeout=5400)
         passed = set()
         try:
             for tc in ET.parse(junit).getroot().iter("testcase"):
+                name = f"{tc.get('classname')}::{tc.get('name')}"
                 if not any(ch.tag in ("failure", "error", "skipped") for ch in tc):
-                    passed.add(f"{tc.get('classname')}::{tc.get('name')}")
+                    passed.add(name)
+                elif any(ch.tag == "skipped" and "float16 is not supported for indexes" in (ch.get("message") or "")
+                         for ch in tc):
+                    # an xfail inside a parametrisation whose ids depend on the hash seed (a set of dtypes): the id
+                    # that xfails differs from run to run, so it cannot be held against the change
+                    passed.add(name)
             missing = sorted(STABLE - passed)
             chk = sh(f"cd {wt} && PYTHONPATH={wt} /venv/bin/python -c 'import pandera,sys;print(pandera.__file__)'")
             meta["suite"] = {"applied": True, "head": HEAD[:7], "passed": len(passed), "stable_pass": len(STABLE),
@@ -69,7 +77,7 @@ def main():
                 one(root, s)
             except Exception as e:  # noqa: BLE001
                 print(s, "ERROR", type(e).__name__, e, flush=True)
-    with ThreadPoolExecutor(max_workers=7) as ex:
+    with ThreadPoolExecutor(max_workers=6) as ex:
         list(ex.map(chain, by_prop.values()))
 
 
